@@ -17,7 +17,7 @@ import numpy as np
 from gym_gridverse.envs.visibility_functions import visibility_function_registry as VF
 from gym_gridverse.geometry import Area, Position
 from gym_gridverse.grid import Grid
-from gym_gridverse.grid_object import Color, Door, Floor, Wall
+from gym_gridverse.grid_object import Box, Color, Door, Floor, Key, MovingObstacle, Wall
 from gym_gridverse.utils.raytracing import compute_rays_fancy
 
 from .. import dyn
@@ -35,6 +35,11 @@ def grid_of(pattern, h, w, style='wall'):
     def cell(y, x):
         opaque = pattern >> (y * w + x) & 1
         use_door = style == 'door' or (style == 'mixed' and (y + x) % 2 == 0)
+        if style == 'solid':
+            # transparent cells that are not walkable (a box), opaque cells as walls: sight is about blocks_vision only
+            return Wall() if opaque else Box(Floor())
+        if style == 'items':
+            return Wall() if opaque else (Key(Color.RED) if (y + x) % 2 else MovingObstacle())
         if use_door:
             return Door(Door.Status.CLOSED if opaque else Door.Status.OPEN, Color.RED)
         return Wall() if opaque else Floor()
@@ -87,14 +92,14 @@ def judge_pattern(name, pattern, h, w, origin, memo):
     except Exception as e:  # noqa: BLE001
         return f'{name} raised {type(e).__name__}: {e}'
     # visibility depends on opacity only, not on which object type carries it (doors are opaque by status)
-    for style in ('door', 'mixed'):
+    for style in ('door', 'mixed', 'solid', 'items'):
         try:
             v_alt = vis_mask(name, pattern, h, w, origin, style=style)
         except Exception as e:  # noqa: BLE001
             return f'{name} raised {type(e).__name__} on the {style} encoding of the pattern: {e}'
         if v_alt != v:
             diff = [(b // w, b % w) for b in range(h * w) if (v ^ v_alt) >> b & 1]
-            return (f'visibility differs between the Wall/Floor encoding and the {style} encoding (closed/open doors) of the '
+            return (f'visibility differs between the Wall/Floor encoding and the {style} encoding (closed/open doors; boxes / keys / obstacles as the transparent cells) of the '
                     f'same opacity pattern at cells {diff}')
     o = origin[0] * w + origin[1]
     if not v >> o & 1:
@@ -141,9 +146,21 @@ NI_WIDE = [((-1, 0), (-3, 3)), U.SHIPPED_AREA]  # 7 columns wide, used with the 
 
 
 def judge_ni(s, area, name):
-    base = O.observe(name, area, mkstate(s))
+    from ..desc import sdesc
+    st0 = mkstate(s)
+    base = O.observe(name, area, st0)
     if isinstance(base[0], str):
         return 1, None
+    # what is shown is a function of the world: looking does not change the world, and looking twice shows the same
+    if sdesc(st0) != s:
+        return 1, f'{name} area {area}: computing the observation changed the world (cells it hides were written into the state)'
+    if O.observe(name, area, st0) != base:
+        return 1, f'{name} area {area}: a second look at the same state shows something else'
+    # the same view of the world must be shown when the objects are looked at through a state that was stepped from another
+    from gym_gridverse.utils.fast_copy import fast_copy
+    if O.observe(name, area, fast_copy(st0)) != base:
+        return 1, f'{name} area {area}: a copy of the state is shown differently'
+    st0 = None
     rows = s[0]
     H, W = R.shape(rows)
     (ymin, ymax), (xmin, xmax) = area
